@@ -251,6 +251,25 @@ def Node.setConnCounter (n : Node) (db : Db) : Node × Db × List Ev :=
   match n.setKeyValue db Gen.connectionsKey (Bytes.ofNat db.conns) (-1) with
   | (n, db, _, evs) => (n, db, evs)
 
+/-- `release_selected_db`: the database the session was bound to counts one connection less -/
+def Node.releaseSelected (n : Node) (s : Session) : Node × List Ev :=
+  match s.db with
+  | some prev =>
+    match n.db? prev with
+    | some pdb =>
+      match n.setConnCounter { pdb with conns := pdb.conns - 1 } with
+      | (n, pdb', evs) => (n.setDb pdb', evs)
+    | none => (n, [])
+  | none => (n, [])
+
+/-- the database just selected counts one connection more (`inc_connections` + `set_connection_counter`) -/
+def Node.countSelected (n : Node) (name : Bytes) : Node × List Ev :=
+  match n.db? name with
+  | some db =>
+    match n.setConnCounter { db with conns := db.conns + 1 } with
+    | (n, db, evs) => (n.setDb db, evs)
+  | none => (n, [])
+
 def memberLine (n : Node) (m : Member) : Bytes :=
   if m.name = n.addr then m.name ++ b!"(self):" ++ m.role.toBytes ++ [32]
   else m.name ++ [40] ++ (if m.connected then b!"Connected" else b!"Disconnected") ++ b!"):" ++ m.role.toBytes
@@ -426,24 +445,12 @@ def Node.processObj (recur : Node → Sid → Bytes → Node × Out) (n : Node) 
     | some db =>
       if db.validLogin token userName then
         -- release_selected_db: a session counts in one database at a time
-        let (n, evs0) : Node × List Ev := match s.db with
-          | some prev =>
-            match n.db? prev with
-            | some pdb =>
-              match n.setConnCounter { pdb with conns := pdb.conns - 1 } with
-              | (n, pdb', evs) => (n.setDb pdb', evs)
-            | none => (n, [])
-          | none => (n, [])
+        let (n, evs0) := n.releaseSelected s
         let s' := match userName with
           | some u => { s with db := some name, user := some u }
           | none => { s with db := some name }
-        let n := n.setSession sid s'
-        match n.db? name with
-        | some db =>
-          let db := { db with conns := db.conns + 1 }
-          match n.setConnCounter db with
-          | (n, db, evs) => (n.setDb db, .ok, evs0 ++ evs)
-        | none => (n, .ok, evs0)
+        let (n, evs1) := (n.setSession sid s').countSelected name
+        (n, .ok, evs0 ++ evs1)
       else (n, .error b!"Invalid token", [])
   | .createUser token userName =>
     n.withAccess (n.safeAccess sid Gen.userKeyPrefix .write) fun db =>
